@@ -1,4 +1,5 @@
 import Klepto.Props.Refuse
+import Klepto.Props.C02
 /-!
 # C07 (and the limit of C05) when the archive refuses a write-back
 
@@ -145,3 +146,131 @@ theorem C05_refused_only {K V : Type} [DecidableEq K]
   · exact h'
   · exact absurd h' h
 end Klepto.C05
+
+/-! ## whole histories over the wider alphabet: calls, `f.dump()`, `f.dump(k…)`, `f.load(k…)`, lookups, `info()` -/
+namespace Klepto.C07
+open Klepto AMap C02
+set_option linter.unusedSectionVars false
+variable {K V : Type} [DecidableEq K]
+
+/-- what a (possibly refused) `f.dump(k…)` leaves is what `dump` of a prefix of the keys leaves -/
+theorem dumpKeysF_prefix (r : Refuse V) (c : Cache K V) (ks : List K) :
+    ∃ ks', (match c.dumpKeysF r ks with | .ok c' => c' | .error c' => c') = c.dumpKeys ks' := by
+  induction ks generalizing c with
+  | nil => exact ⟨[], rfl⟩
+  | cons k ks ih =>
+    simp only [Cache.dumpKeysF]
+    cases hd : c.dump1F r k with
+    | none => exact ⟨[], rfl⟩
+    | some c' =>
+      simp only
+      obtain ⟨ks', h⟩ := ih c'
+      refine ⟨k :: ks', ?_⟩
+      rw [h, dump1F_some r _ _ _ hd]; rfl
+
+theorem dumpKeys_mem (c : Cache K V) (ks : List K) : (c.dumpKeys ks).mem = c.mem := by
+  induction ks generalizing c with
+  | nil => rfl
+  | cons k ks ih => simp only [Cache.dumpKeys, List.foldl_cons]; exact (ih _).trans (dump1_mem c k)
+
+theorem sound_dumpKeys (c : Cache K V) (ks : List K) (h : Sound c) : Sound (c.dumpKeys ks) :=
+  ⟨by rw [dumpKeys_mem]; exact h.nodup, by rw [dumpKeys_archived]; exact h.archived, agree_dumpKeys _ ks h.agree⟩
+
+/-- what a (possibly refused) `f.dump()` leaves: `Sound`, and nothing retrievable lost -/
+theorem dumpAllF_sound (r : Refuse V) (c : Cache K V) (h : Sound c) :
+    Sound (match c.dumpAllF r with | .ok c' => c' | .error c' => c') ∧
+    ∀ j w, retr c j = some w → retr (match c.dumpAllF r with | .ok c' => c' | .error c' => c') j = some w := by
+  cases hd : c.dumpAllF r with
+  | ok c' =>
+    have : c' = c.dumpAll := by
+      unfold Cache.dumpAllF at hd
+      split at hd
+      · split at hd
+        · cases hd
+        · cases hd; rfl
+      · cases hd; rfl
+    subst this
+    exact ⟨⟨by simpa using h.nodup, by simpa using h.archived, agree_dumpAll _ h.nodup⟩,
+      fun j w hb => by rw [retr_dumpAll _ _ h.nodup]; exact hb⟩
+  | error c' =>
+    simp only
+    obtain ⟨hm, he⟩ := moveRel_dumpAllF_error r c c' h.nodup hd
+    refine ⟨⟨by rw [he]; exact h.nodup, by rw [hm.archived]; exact h.archived, agree_move hm h.agree⟩, fun j w hb => ?_⟩
+    unfold retr at hb ⊢
+    rw [he]
+    cases hg : get? c.mem j with
+    | some x => rw [hg] at hb; exact hb
+    | none =>
+      rw [hg] at hb
+      simp only
+      rcases hm.arch j with ha | ⟨hs, _⟩
+      · rw [ha]; exact hb
+      · rw [hg] at hs; cases hs
+
+/-- the operations of a history over a refusing archive that the theorem covers -/
+def QuietF : Op K V → Bool
+  | .call _ => true | .load _ => true | .dump _ => true | .dumpAll => true
+  | .lookup _ => true | .info => true | .archivedQ => true
+  | _ => false
+
+theorem sound_stepF (r : Refuse V) (cfg : Cfg) (hno : cfg.algo ≠ .no) (s : St K V) (op : Op K V)
+    (hq : QuietF op = true) (h : Sound s.c) :
+    Sound (stepF r cfg s op).1.c ∧ ∀ j w, retr s.c j = some w → retr (stepF r cfg s op).1.c j = some w := by
+  cases op with
+  | call ci =>
+    have hstep : stepF r cfg s (.call ci) = callCachedF r cfg s ci := by simp [stepF, callF, hno]
+    rw [hstep]
+    exact ⟨sound_callF r cfg s ci h, fun j w hb => C07_refused_retained r cfg s ci h.nodup h.archived h.agree j w hb⟩
+  | load ks =>
+    simp only [stepF, step]
+    refine ⟨⟨?_, ?_, agree_loadKeys _ ks h.agree⟩, fun j w hb => (retr_loadKeys s.c ks j w h.agree hb).1⟩
+    · exact (loadKeys_grow s.c ks h.nodup).1
+    · have := h.archived
+      simp only [Cache.archived] at this ⊢
+      rw [loadKeys_arch]; exact this
+  | dump ks =>
+    obtain ⟨ks', hk⟩ := dumpKeysF_prefix r s.c ks
+    simp only [stepF]
+    cases hd : s.c.dumpKeysF r ks with
+    | ok c' =>
+      rw [hd] at hk; simp only at hk ⊢; subst hk
+      exact ⟨sound_dumpKeys _ ks' h, fun j w hb => by rw [retr_dumpKeys]; exact hb⟩
+    | error c' =>
+      rw [hd] at hk; simp only at hk ⊢; subst hk
+      exact ⟨sound_dumpKeys _ ks' h, fun j w hb => by rw [retr_dumpKeys]; exact hb⟩
+  | dumpAll =>
+    have := dumpAllF_sound r s.c h
+    simp only [stepF]
+    cases hd : s.c.dumpAllF r with
+    | ok c' => rw [hd] at this; exact this
+    | error c' => rw [hd] at this; exact this
+  | lookup key =>
+    simp only [stepF, step]
+    split
+    · split <;> exact ⟨h, fun _ _ hb => hb⟩
+    · exact ⟨h, fun _ _ hb => hb⟩
+    · exact ⟨h, fun _ _ hb => hb⟩
+  | info => exact ⟨h, fun _ _ hb => hb⟩
+  | archivedQ => exact ⟨h, fun _ _ hb => hb⟩
+  | clear keep => simp [QuietF] at hq
+  | loadAll => simp [QuietF] at hq
+  | archivedOn => simp [QuietF] at hq
+  | archivedOff => simp [QuietF] at hq
+  | setArchive a => simp [QuietF] at hq
+  | extPut k v => simp [QuietF] at hq
+  | extDel k => simp [QuietF] at hq
+
+/-- **nothing retrievable is ever lost over a history of calls, dumps, loads and lookups on an archive that
+refuses values** - whichever operations ended in the archive's exception -/
+theorem C07_refused_history_quiet (r : Refuse V) (cfg : Cfg) (hno : cfg.algo ≠ .no) (ops : List (Op K V))
+    (s : St K V) (hq : ∀ op ∈ ops, QuietF op = true) (h : Sound s.c) :
+    Sound (runF r cfg s ops).1.c ∧ ∀ j w, retr s.c j = some w → retr (runF r cfg s ops).1.c j = some w := by
+  induction ops generalizing s with
+  | nil => exact ⟨h, fun _ _ hb => hb⟩
+  | cons op ops ih =>
+    have h1 := sound_stepF r cfg hno s op (hq op (by simp)) h
+    have h2 := ih (stepF r cfg s op).1 (fun o ho => hq o (by simp [ho])) h1.1
+    simp only [runF]
+    exact ⟨h2.1, fun j w hb => h2.2 j w (h1.2 j w hb)⟩
+
+end Klepto.C07
